@@ -130,3 +130,6 @@ def check(cx):
                    "headers-fit", "", "headers fit the smallest page", "a page header is larger than MIN_PAGE_SIZE")
     except AnchorMissing as e:
         cx.bad(r5, "anchor-missing", "", str(e))
+
+    from . import c11
+    cx.include(c11, {"C11.3"}, "C12.6", "shared with C11.3: fresh and recycled pages alike are marked dirty by allocate_page (otherwise a recycled page that is not written again is lost at eviction or checkpoint)", floor=4)
